@@ -249,6 +249,9 @@ rt!(sna_rt_48k_fresh, ZXMachine::Sinclair48K, true, 0);
 // What the stand-ins assume - a page accessor returns the bytes of exactly the requested bank -
 // is proved by K-core::memory::page_slices. With them the paging latch is fully symbolic.
 static mut VPAGES: [[u8; 4]; 8] = [[0; 4]; 8];
+pub unsafe fn set_vpages(c: [[u8; 4]; 8]) {
+    VPAGES = c;
+}
 pub fn page_stub(_m: &crate::zx::memory::ZXMemory, page: u8) -> &[u8] {
     unsafe { &VPAGES[(page & 7) as usize][..] }
 }
